@@ -312,93 +312,150 @@ Proof.
 Qed.
 
 (* ---------------------------------------------------------------------------------------------
-   Sessions (Model/QSSession.v): estimator objects as a state machine.  [qrun cd S ops] runs a
-   history of calls -- New e c s2 sh: est[e] = QuickShift(cuts[c] | None, sh, scale = s2/2);
-   Fit e d: est[e].fit(X_d, w_d); SetShell e sh: est[e].gabriel_shell = sh; SetW d w: the caller
-   rewrites w_d in place; Read e: est[e].labels_ -- from state S (the caller's cut-off arrays
-   [s_cuts], data sets [s_data], estimator objects [s_est]); [cd] = len(cell) or None.
-   [reconf e o]: o is New e .. or SetShell e ..;  [fit_obs r] = what fit shows (labels_,
-   cluster_centers_idx_) or that it raised. *)
+   Sessions (Model/QSSession.v): estimator objects as a state machine.  [qrun S ops] runs a history
+   of calls from state S (the caller's cut-off arrays [s_cuts], cell arrays [s_cells] (lengths),
+   data sets [s_data], estimator objects [s_est]):
+     New e c s2 sh cell : est[e] = QuickShift(cuts[c] | None, sh, scale = s2/2,
+                                              metric_params = {"cell_length": cells[cell] | None})
+     Fit e d            : est[e].fit(X_d, w_d)
+     SetShell e sh      : est[e].set_params(gabriel_shell = sh)
+     SetCell e cell     : est[e].set_params(metric_params = {"cell_length": cells[cell] | None})
+     SetCut e c         : est[e].set_params(dist_cutoff_sq = cuts[c] | None)   (stored as given)
+     SetScale e s2      : est[e].set_params(scale = s2/2)                      (never read again)
+     SetW d w           : the caller rewrites w_d in place;      Read e : est[e].labels_
+   [reconf e o]: o is New e .. / SetShell e .. / SetCell e .. / SetCut e ..;  [cfg_step cuts x o]:
+   the effect of such a call on the estimator record x;  [dsel q cell]: the squared distance matrix
+   of data q under the metric with that cell;  [fit_guard cells x q]: fit raises ValueError (the
+   cell recorded by __init__, or the cell in force inside the metric, does not have the data's
+   dimension);  [fit_obs r] = what fit shows (labels_, cluster_centers_idx_) or that it raised. *)
 
 (* no call ever writes the caller's cut-off arrays, whatever the history *)
 Theorem C16_session_cuts_unchanged :
-  forall cd S ops, s_cuts (fst (qrun cd S ops)) = s_cuts S.
+  forall S ops, s_cuts (fst (qrun S ops)) = s_cuts S.
 Proof. exact session_cuts_unchanged. Qed.
 Print Assumptions C16_session_cuts_unchanged.
 
 (* ... and the caller's data change through the caller's own writes only *)
 Theorem C16_session_data_caller_only :
-  forall cd S ops, s_data (fst (qrun cd S ops)) = fold_left caller_step ops (s_data S).
+  forall S ops, s_data (fst (qrun S ops)) = fold_left caller_step ops (s_data S).
 Proof. exact session_data_caller_only. Qed.
 Print Assumptions C16_session_data_caller_only.
 
+(* fit reads EVERY hyper-parameter when it runs.  After an arbitrary history [ops] the parameters
+   of est[e] are those produced by the configuration calls addressed to est[e] alone, in order
+   (last write wins per parameter; fits, refits, reads, set_params(scale=..), calls on other
+   estimators, rejected calls are all irrelevant), and est[e].fit on data d shows exactly the fresh
+   fit for them: cut-offs in force, shell in force, and the distance matrix of d under the cell in
+   force when fit runs. *)
+Theorem C16_session_fit_reads_parameters_in_force :
+  forall S0 ops e d,
+    e < length (s_est S0) ->
+    let S := fst (qrun S0 ops) in
+    let x := fold_left (cfg_step (s_cuts S0)) (filter (reconf e) ops) (get_est S0 e) in
+    let q := get_data S d in
+    fit_guard (s_cells S0) x q = false ->
+    snd (qstep S (Fit e d)) = fit_obs (fit_of_params (e_cut x) (e_shell x) (dsel q (e_cell x)) (q_w q)).
+Proof. exact session_fit_params_in_force. Qed.
+Print Assumptions C16_session_fit_reads_parameters_in_force.
+
 (* A fit is a FRESH fit.  Let est[e] be constructed from the caller's cut-off array c with scale
-   s2/2 after an arbitrary history [pre] (which may have handed the same array to any number of
-   constructors, fitted, refitted, ...), followed by an arbitrary history [mid] that does not
-   re-configure est[e] (other estimators built from the same array, fits and refits of est[e] on
-   any data, weights rewritten, rejected calls ...).  Then est[e].fit on data d shows exactly
-   [quickshift] (Model/QuickShift.v, to which every theorem above applies) of d's current distance
-   matrix and weights for the cut-offs  ORIGINAL array c * (s2/2)^2. *)
+   s2/2 and cell [cell] after an arbitrary history [pre] (which may have handed the same array to
+   any number of constructors, fitted, refitted, ...), followed by an arbitrary history [mid] that
+   does not re-configure est[e].  Then est[e].fit on data d shows exactly [quickshift]
+   (Model/QuickShift.v, to which every theorem above applies) of d's distance matrix under that
+   cell and d's current weights for the cut-offs  ORIGINAL array c * (s2/2)^2. *)
 Theorem C16_session_fit_is_fresh_fit_cut :
-  forall cd S0 pre mid e c s2 sh d,
+  forall S0 pre mid e c s2 sh cell d,
     e < length (s_est S0) ->
     forallb (fun o => negb (reconf e o)) mid = true ->
-    let S := fst (qrun cd S0 (pre ++ New e (Some c) s2 sh :: mid)) in
+    let S := fst (qrun S0 (pre ++ New e (Some c) s2 sh cell :: mid)) in
     let q := get_data S d in
-    dim_mismatch cd (q_dim q) = false ->
-    snd (qstep cd S (Fit e d)) = fit_obs (quickshift (q_D q) (q_w q) (Cut (nth c (s_cuts S0) []) s2)).
+    cell_mismatch (s_cells S0) cell (q_dim q) = false ->
+    snd (qstep S (Fit e d)) = fit_obs (quickshift (dsel q cell) (q_w q) (Cut (nth c (s_cuts S0) []) s2)).
 Proof. exact session_fit_fresh_cut. Qed.
 Print Assumptions C16_session_fit_is_fresh_fit_cut.
 
 Theorem C16_session_fit_is_fresh_fit_gab :
-  forall cd S0 pre mid e s2 sh d,
+  forall S0 pre mid e s2 sh cell d,
     e < length (s_est S0) ->
     forallb (fun o => negb (reconf e o)) mid = true ->
-    let S := fst (qrun cd S0 (pre ++ New e None s2 (Some sh) :: mid)) in
+    let S := fst (qrun S0 (pre ++ New e None s2 (Some sh) cell :: mid)) in
     let q := get_data S d in
-    dim_mismatch cd (q_dim q) = false ->
-    snd (qstep cd S (Fit e d)) = fit_obs (quickshift (q_D q) (q_w q) (Gab sh)).
+    cell_mismatch (s_cells S0) cell (q_dim q) = false ->
+    snd (qstep S (Fit e d)) = fit_obs (quickshift (dsel q cell) (q_w q) (Gab sh)).
 Proof. exact session_fit_fresh_gab. Qed.
 Print Assumptions C16_session_fit_is_fresh_fit_gab.
 
-(* gabriel_shell is read when fit runs: after est[e].gabriel_shell = sh' (est[e] without cut-offs)
-   and any history not re-configuring est[e], the fit is the fresh fit for shell sh' *)
+(* set_params, parameter by parameter ([x1] = est[e] just before the call; [mid] does not
+   re-configure est[e]).  gabriel_shell: the fit is that of the new shell *)
 Theorem C16_session_fit_after_setshell :
-  forall cd S0 pre mid e sh' d,
+  forall S0 pre mid e sh' d,
     e < length (s_est S0) ->
     forallb (fun o => negb (reconf e o)) mid = true ->
-    let S1 := fst (qrun cd S0 pre) in
-    e_cut (get_est S1 e) = None ->
-    let S := fst (qrun cd S0 (pre ++ SetShell e sh' :: mid)) in
+    let x1 := get_est (fst (qrun S0 pre)) e in
+    e_cut x1 = None ->
+    let S := fst (qrun S0 (pre ++ SetShell e sh' :: mid)) in
     let q := get_data S d in
-    dim_mismatch cd (q_dim q) = false ->
-    snd (qstep cd S (Fit e d)) = fit_obs (quickshift (q_D q) (q_w q) (Gab sh')).
-Proof. exact session_fit_fresh_setshell. Qed.
+    fit_guard (s_cells S0) x1 q = false ->
+    snd (qstep S (Fit e d)) = fit_obs (quickshift (dsel q (e_cell x1)) (q_w q) (Gab sh')).
+Proof. exact session_fit_after_setshell. Qed.
 Print Assumptions C16_session_fit_after_setshell.
 
-(* the two rejection branches (constructor with neither rule; fit on data whose dimension is not
-   the cell's) raise and leave the whole state -- estimators, their labels_, the caller's arrays --
+(* metric_params: the distances are those of the cell given to set_params, not of the cell the
+   estimator was constructed with (the metric closure reads metric_params when fit calls it) *)
+Theorem C16_session_fit_after_setcell :
+  forall S0 pre mid e cell' d,
+    e < length (s_est S0) ->
+    forallb (fun o => negb (reconf e o)) mid = true ->
+    let x1 := get_est (fst (qrun S0 pre)) e in
+    let S := fst (qrun S0 (pre ++ SetCell e cell' :: mid)) in
+    let q := get_data S d in
+    cell_mismatch (s_cells S0) (e_cell0 x1) (q_dim q) = false ->
+    cell_mismatch (s_cells S0) cell' (q_dim q) = false ->
+    snd (qstep S (Fit e d)) = fit_obs (fit_of_params (e_cut x1) (e_shell x1) (dsel q cell') (q_w q)).
+Proof. exact session_fit_after_setcell. Qed.
+Print Assumptions C16_session_fit_after_setcell.
+
+(* dist_cutoff_sq: the array given to set_params is used as given -- `scale` is applied by
+   __init__ only -- i.e. the fit is that of a construction with scale 1 (s2 = 2) *)
+Theorem C16_session_fit_after_setcut :
+  forall S0 pre mid e c d,
+    e < length (s_est S0) ->
+    forallb (fun o => negb (reconf e o)) mid = true ->
+    let x1 := get_est (fst (qrun S0 pre)) e in
+    let S := fst (qrun S0 (pre ++ SetCut e (Some c) :: mid)) in
+    let q := get_data S d in
+    fit_guard (s_cells S0) x1 q = false ->
+    snd (qstep S (Fit e d)) = fit_obs (quickshift (dsel q (e_cell x1)) (q_w q) (Cut (nth c (s_cuts S0) []) 2)).
+Proof. exact session_fit_after_setcut. Qed.
+Print Assumptions C16_session_fit_after_setcut.
+
+(* the rejection branches (constructor with neither rule; fit on data whose dimension is not the
+   cell's) raise and leave the whole state -- estimators, their labels_, the caller's arrays --
    as it was *)
 Theorem C16_session_rejections :
-  forall cd S e s2 d,
-    qstep cd S (New e None s2 None) = (S, ObsErr) /\
-    (dim_mismatch cd (q_dim (get_data S d)) = true -> qstep cd S (Fit e d) = (S, ObsErr)).
+  forall S e s2 cell d,
+    qstep S (New e None s2 None cell) = (S, ObsErr) /\
+    (fit_guard (s_cells S) (get_est S e) (get_data S d) = true -> qstep S (Fit e d) = (S, ObsErr)).
 Proof. exact session_rejections. Qed.
 Print Assumptions C16_session_rejections.
 
 (* labels_ read after a successful fit is that fit's result *)
 Theorem C16_session_read_after_fit :
-  forall cd S e d R c,
+  forall S e d R c,
     e < length (s_est S) ->
-    qstep cd S (Fit e d) = (fst (qstep cd S (Fit e d)), ObsFit R c) ->
-    snd (qstep cd (fst (qstep cd S (Fit e d))) (Read e)) = ObsRead (Some R).
+    qstep S (Fit e d) = (fst (qstep S (Fit e d)), ObsFit R c) ->
+    snd (qstep (fst (qstep S (Fit e d))) (Read e)) = ObsRead (Some R).
 Proof. exact session_read_after_fit. Qed.
 Print Assumptions C16_session_read_after_fit.
 
-(* non-vacuity: the line of C16_nonvacuous; ONE caller array of cut-offs 5/8 ... is handed with
-   scale 2 (s2 = 4) to est[0], then to est[1]; est[0] is fitted, est[1] is fitted twice with a
-   rejected constructor call in between: both see the cut-offs 40 * 16 / 32 = 20 (basins of C16_nonvacuous
-   for cut-off 20: 0,1,2 -> 1 and 3,4,5 -> 4), and the array is as it was *)
+(* non-vacuity: the line of C16_nonvacuous (points 0,1,2,10,11,12), without a cell (matrix D) and
+   in a cell of length 13 (matrix Dp: 0 and 12 become neighbours).  ONE caller array of cut-offs
+   5/8 .. is handed with scale 2 (s2 = 4) to est[0] and est[1]: both see 40 * 16 / 32 = 20 (basins
+   0,1,2 -> 1 and 3,4,5 -> 4), also after a rejected constructor call, and the array is as it was.
+   Then est[1].set_params(metric_params = cell): the same estimator now merges everything into
+   point 4 (1 -> 4 at periodic distance 9 < 20, 0 -> 1); set_params(scale) changes nothing;
+   set_params(dist_cutoff_sq = the same array) uses it unscaled, 40 * 4 / 32 = 5: two basins again. *)
 Example C16_session_nonvacuous :
   let D := [[None; Some 1; Some 4; Some 100; Some 121; Some 144];
             [Some 1; None; Some 1; Some 81; Some 100; Some 121];
@@ -406,13 +463,23 @@ Example C16_session_nonvacuous :
             [Some 100; Some 81; Some 64; None; Some 1; Some 4];
             [Some 121; Some 100; Some 81; Some 1; None; Some 1];
             [Some 144; Some 121; Some 100; Some 4; Some 1; None]]%Z in
-  let S0 := mkState [[40; 40; 40; 40; 40; 40]%Z] [mkData 1 D [1; 5; 3; 2; 9; 4]%Z] [no_est; no_est] in
-  let ops := [New 0 (Some 0) 4%Z None; New 1 (Some 0) 4%Z (Some 2); Fit 0 0; Fit 1 0;
-              New 1 None 4%Z None; Fit 1 0; Read 1] in
+  let Dp := [[None; Some 1; Some 4; Some 9; Some 4; Some 1];
+             [Some 1; None; Some 1; Some 16; Some 9; Some 4];
+             [Some 4; Some 1; None; Some 25; Some 16; Some 9];
+             [Some 9; Some 16; Some 25; None; Some 1; Some 4];
+             [Some 4; Some 9; Some 16; Some 1; None; Some 1];
+             [Some 1; Some 4; Some 9; Some 4; Some 1; None]]%Z in
+  let S0 := mkState [[40; 40; 40; 40; 40; 40]%Z] [1] [mkData 1 [D; Dp] [1; 5; 3; 2; 9; 4]%Z] [no_est; no_est] in
+  let ops := [New 0 (Some 0) 4%Z None None; New 1 (Some 0) 4%Z (Some 2) None; Fit 0 0; Fit 1 0;
+              New 1 None 4%Z None None; Fit 1 0; Read 1;
+              SetCell 1 (Some 0); Fit 1 0; SetScale 1 6%Z; Fit 1 0; SetCut 1 (Some 0); Fit 1 0] in
   let R := map Some [1; 1; 1; 4; 4; 4] in
-  snd (qrun None S0 ops) =
+  let Rp := map Some [4; 4; 4; 4; 4; 4] in
+  snd (qrun S0 ops) =
     [ObsNew (Some [640; 640; 640; 640; 640; 640]%Z); ObsNew (Some [640; 640; 640; 640; 640; 640]%Z);
-     ObsFit R [1; 4]; ObsFit R [1; 4]; ObsErr; ObsFit R [1; 4]; ObsRead (Some R)] /\
-  s_cuts (fst (qrun None S0 ops)) = s_cuts S0 /\
-  forallb (fun o => negb (reconf 0 o)) [New 1 (Some 0) 4%Z (Some 2); Fit 0 0; Fit 1 0] = true.
+     ObsFit R [1; 4]; ObsFit R [1; 4]; ObsErr; ObsFit R [1; 4]; ObsRead (Some R);
+     ObsUnit; ObsFit Rp [4]; ObsUnit; ObsFit Rp [4];
+     ObsNew (Some [160; 160; 160; 160; 160; 160]%Z); ObsFit R [1; 4]] /\
+  s_cuts (fst (qrun S0 ops)) = s_cuts S0 /\
+  forallb (fun o => negb (reconf 0 o)) [New 1 (Some 0) 4%Z (Some 2) None; Fit 0 0; Fit 1 0] = true.
 Proof. cbv zeta. repeat split; vm_compute; reflexivity. Qed.
